@@ -123,6 +123,32 @@ func makeLoopDepth(p *pkg, key, field string) int {
 	return best
 }
 
+// makeLenAssigned: N of the first `<lhs> := make([]byte, N)` / `<lhs> = make([]byte, N)` in the function
+func makeLenAssigned(p *pkg, key, lhs string) (int64, bool) {
+	fd := p.funcs[key]
+	if fd == nil || fd.Body == nil {
+		return 0, false
+	}
+	var out int64
+	found := false
+	ast.Inspect(fd.Body, func(n ast.Node) bool {
+		if found {
+			return false
+		}
+		as, ok := n.(*ast.AssignStmt)
+		if !ok || len(as.Lhs) != 1 || len(as.Rhs) != 1 || p.src(as.Lhs[0]) != lhs {
+			return true
+		}
+		if ce, ok := as.Rhs[0].(*ast.CallExpr); ok && p.src(ce.Fun) == "make" && len(ce.Args) == 2 && p.src(ce.Args[0]) == "[]byte" {
+			if v, ok := p.evalInt(ce.Args[1], 0, 0); ok {
+				out, found = v, true
+			}
+		}
+		return true
+	})
+	return out, found
+}
+
 // startsWithCompleteCheck: the first statement that is not an assignment to m/raw is
 // `if !<pkg>IsCompleteMessage(data, typeX) { return false }`; returns the value of typeX.
 func startsWithCompleteCheck(p *pkg, key string) (int64, bool) {
@@ -202,6 +228,32 @@ func emitCodec(e *emitter, p *pkg) {
 	e.nat("codecSigAlgsMakeMode", mode("supportedSignatureAlgorithms"), hasCH)
 	if p.name == "dtlcp" {
 	}
+	// what the message constructors emit (C14 Emitted predicates): the constants they use, the
+	// length of a fresh random (tlcpRand) and of a fresh session id (doFullHandshake), the
+	// certificate types of a CertificateRequest
+	for _, c := range []string{"compressionNone", "SM2WithSM3", "CurveSM2", "certTypeRSASign", "certTypeECDSASign"} {
+		v, ok := p.constInt(c)
+		e.nat("emit_"+c, v, ok)
+	}
+	erl, okr := makeLenAssigned(p, "Conn.tlcpRand", "rd")
+	e.nat("emitRandLen", erl, okr)
+	sl, oks := makeLenAssigned(p, "serverHandshakeState.doFullHandshake", "hs.hello.sessionId")
+	e.nat("emitSessionIdLen", sl, oks)
+	var ct []int64
+	okc := false
+	if fd := p.funcs["serverHandshakeState.doFullHandshake"]; fd != nil && fd.Body != nil {
+		ast.Inspect(fd.Body, func(n ast.Node) bool {
+			as, ok := n.(*ast.AssignStmt)
+			if !ok || len(as.Lhs) != 1 || len(as.Rhs) != 1 || p.src(as.Lhs[0]) != "certReq.certificateTypes" {
+				return true
+			}
+			if vs, ok := identList(p, as.Rhs[0]); ok {
+				ct, okc = vs, true
+			}
+			return true
+		})
+	}
+	e.natList("emitCertTypes", ct, okc)
 	// unmarshals that start with the complete-message guard (repairs F18a / F18b)
 	types := append([]string{}, codecMsgTypes...)
 	if p.name == "dtlcp" {
